@@ -50,6 +50,12 @@
 (*                  bool(previous value).                                  *)
 (*   FixCopyParked  publisher.h:188-191  the copy of a parked subscriber   *)
 (*                  took the pre-incremented position and skipped a value. *)
+(*   FixCopyOfWoken the same for a subscriber whose awaiter push_lk has    *)
+(*                  already taken out for the wake-up and which has not    *)
+(*                  fetched its value yet (copied by a waiter resumed      *)
+(*                  earlier in the same wake-up loop, or by another        *)
+(*                  thread): repaired by a `woken` bit in the registration *)
+(*                  (set by push_lk, cleared by get_value_lk).             *)
 (***************************************************************************)
 EXTENDS Integers, Sequences, FiniteSets, TLC
 
@@ -64,8 +70,12 @@ CONSTANTS NSubs,        \* subscriber identities 1..NSubs (an identity can be re
           AtPos,        \* positions subscribe-at-position may use (those <= pos-1)
           MaxKick,      \* bound on kick events
           Serial,       \* TRUE: the wake-ups of one publisher call directly follow its critical section
+          Founders,     \* identities that may subscribe at the publisher (the others come into being as copies only)
           CopyBusy,     \* TRUE: a subscriber may be copied while it is parked
-          FixCloseRace, FixGetValue, FixBlocking, FixCopyParked
+          CopyWoken,    \* TRUE: ... also after push_lk collected its awaiter and before it fetched the value:
+                        \*       by a waiter resumed earlier in the same wake-up loop (PlanCopy / WakeCopy, Serial),
+                        \*       or by another thread (PublisherConc)
+          FixCloseRace, FixGetValue, FixBlocking, FixCopyParked, FixCopyOfWoken
 
 VARIABLES pos, q, regs, nextFree, closed,
           pubAlive,     \* the publisher object exists (the queue outlives it through shared_ptr)
@@ -73,9 +83,10 @@ VARIABLES pos, q, regs, nextFree, closed,
           pc, hnd, mode, recv, res, wakes,   \* per subscriber identity
           start, oow, wasKicked,             \* per subscriber ghosts
           left,                              \* some subscriber has been destroyed (its pointer is stale)
+          plan,                              \* [st,a,c,o]: the resumption handler of waiter a will copy subscriber o into c
           njoin, nkick
 
-vars == <<pos, q, regs, nextFree, closed, pubAlive, wakeq, pc, hnd, mode, recv, res, wakes, start, oow, wasKicked, left, njoin, nkick>>
+vars == <<pos, q, regs, nextFree, closed, pubAlive, wakeq, pc, hnd, mode, recv, res, wakes, start, oow, wasKicked, left, plan, njoin, nkick>>
 pubvars == <<pos, q, closed, pubAlive>>
 
 Subs == 1..NSubs
@@ -92,8 +103,10 @@ Live(s) == pc[s] # "unborn"
 Slot(s) == regs[hnd[s] + 1]
 LastSeen(s) == IF recv[s] = <<>> THEN start[s] ELSE recv[s][Len(recv[s])]
 
+NoPlan == [st |-> "none", a |-> 0, c |-> 0, o |-> 0]
+
 (* a wake-up loop is in progress (Serial: nothing else may happen in between) *)
-Busy == wakeq # <<>> \/ \E s \in Subs : pc[s] \in WFetchPc
+Busy == wakeq # <<>> \/ plan.st = "due" \/ \E s \in Subs : pc[s] \in WFetchPc
 CanAct == Serial => ~Busy
 PubFree == wakeq = <<>> /\ CanAct
 
@@ -109,6 +122,7 @@ Init == /\ pos = 1 /\ q = <<>> /\ regs = <<>> /\ nextFree = 0 /\ closed = FALSE 
         /\ oow = [s \in Subs |-> FALSE]
         /\ wasKicked = [s \in Subs |-> FALSE]
         /\ left = FALSE
+        /\ plan = NoPlan
         /\ njoin = 0 /\ nkick = 0
 
 -----------------------------------------------------------------------------
@@ -138,7 +152,8 @@ AdvSuspendLk(l, s) ==
 
 (* get_value_lk, publisher.h:232-252.  v = 0 stands for a read of _q[0] of an empty deque
    (undefined behaviour; reachable only in the unrepaired variants). *)
-GetValueLk(l, m) ==
+GetValueLk(lw, m) ==
+    LET l == [lw EXCEPT !.woken = FALSE] IN       \* (repaired copy-of-woken: the value is being fetched now)
     IF l.kicked \/ (IF FixGetValue THEN l.pos >= pos ELSE l.pos = pos)
       THEN [eos |-> TRUE, v |-> 0, l |-> l]
       ELSE LET rel == IF l.pos > pos THEN Huge ELSE pos - l.pos - 1 IN
@@ -176,11 +191,11 @@ DeliverStale(s, l) ==
 
 -----------------------------------------------------------------------------
 (* subscribe_lk, publisher.h:166-183: take a slot from the free list or grow the array *)
-Join(s, p, m, st, ow) ==
-    /\ pc[s] = "unborn" /\ njoin < MaxJoin /\ CanAct
+JoinCore(s, p, m, st, ow) ==
+    /\ pc[s] = "unborn"
     /\ LET grow == nextFree >= Len(regs)
            h == IF grow THEN Len(regs) ELSE nextFree
-           rec == [pos |-> p, used |-> TRUE, kicked |-> FALSE, awt |-> 0]
+           rec == [pos |-> p, used |-> TRUE, kicked |-> FALSE, awt |-> 0, woken |-> FALSE]
        IN /\ regs' = IF grow THEN Append(regs, rec) ELSE [regs EXCEPT ![h + 1] = rec]
           /\ nextFree' = IF grow THEN Len(regs) + 1 ELSE regs[h + 1].pos
           /\ hnd' = [hnd EXCEPT ![s] = h]
@@ -192,27 +207,60 @@ Join(s, p, m, st, ow) ==
     /\ start' = [start EXCEPT ![s] = st]
     /\ oow' = [oow EXCEPT ![s] = ow]
     /\ wasKicked' = [wasKicked EXCEPT ![s] = FALSE]
-    /\ njoin' = njoin + 1
     /\ UNCHANGED <<pos, q, closed, pubAlive, wakeq, left, nkick>>
 
+Join(s, p, m, st, ow) ==
+    /\ njoin < MaxJoin /\ CanAct
+    /\ plan.st = "none" \/ s # plan.c         \* the identity is reserved for the planned copy
+    /\ JoinCore(s, p, m, st, ow)
+    /\ njoin' = njoin + 1
+    /\ UNCHANGED plan
+
 (* subscriber(pub, type), publisher.h:402, 184-187 *)
-SubscribeRecent(s, m) == pubAlive /\ Join(s, pos - 1, m, pos - 1, FALSE)
+SubscribeRecent(s, m) == pubAlive /\ s \in Founders /\ Join(s, pos - 1, m, pos - 1, FALSE)
 
 (* subscriber(pub, pos, type), publisher.h:409; oow: the value after p is no longer retained *)
-SubscribeAt(s, p, m) == pubAlive /\ p <= pos - 1 /\ Join(s, p, m, p, p + 1 < pos - Len(q))
+SubscribeAt(s, p, m) == pubAlive /\ s \in Founders /\ p <= pos - 1 /\ Join(s, p, m, p, p + 1 < pos - Len(q))
 
 (* subscriber(const subscriber &), publisher.h:421, 188-191 *)
+Woken(o) == pc[o] \in ({"fetch"} \cup WFetchPc) /\ wakes[o] = 1     \* resumed, value not fetched yet
+Collected(o) == pc[o] \in Parked /\ \E i \in 1..Len(wakeq) : wakeq[i] = o   \* awaiter taken out, not resumed yet
+CopyOK(o) ==
+    /\ Live(o) /\ ~Slot(o).kicked
+    /\ \/ pc[o] = "idle"
+       \/ CopyBusy /\ pc[o] \in Parked /\ (CopyWoken \/ ~Collected(o))
+       \/ CopyWoken /\ (pc[o] \in Parked \/ Woken(o))
+CopyPos(o) ==
+    IF (FixCopyParked /\ Slot(o).awt # 0) \/ (FixCopyOfWoken /\ Slot(o).woken) THEN Slot(o).pos - 1 ELSE Slot(o).pos
+CopyCore(c, o) == CopyOK(o) /\ JoinCore(c, CopyPos(o), mode[o], LastSeen(o), oow[o])
+
 SubscribeCopy(c, o) ==
-    /\ Live(o) /\ (pc[o] = "idle" \/ (CopyBusy /\ pc[o] \in Parked))
-    /\ ~Slot(o).kicked
-    /\ Join(c, IF FixCopyParked /\ Slot(o).awt # 0 THEN Slot(o).pos - 1 ELSE Slot(o).pos,
-            mode[o], LastSeen(o), oow[o])
+    /\ CopyOK(o)
+    /\ Join(c, CopyPos(o), mode[o], LastSeen(o), oow[o])
+
+(* the program arranges that the resumption handler of the parked waiter a (a resumed coroutine, a callback)
+   copies the parked subscriber o into c; the copy is made inside the publisher's wake-up loop (WakeCopy) *)
+PlanCopy(a, c, o) ==
+    /\ CopyWoken /\ Serial /\ CanAct /\ plan.st = "none" /\ njoin < MaxJoin
+    /\ a # o /\ pc[a] = "parked" /\ pc[o] \in (Parked \ {"parked_b"}) /\ pc[c] = "unborn"
+    /\ plan' = [st |-> "armed", a |-> a, c |-> c, o |-> o]
+    /\ njoin' = njoin + 1
+    /\ UNCHANGED <<pubvars, regs, nextFree, wakeq, pc, hnd, mode, recv, res, wakes, start, oow, wasKicked, left, nkick>>
+
+WakeCopy ==
+    /\ plan.st = "due"
+    /\ plan' = NoPlan
+    /\ IF CopyOK(plan.o)
+         THEN CopyCore(plan.c, plan.o) /\ UNCHANGED njoin
+         ELSE /\ njoin' = njoin - 1          \* the original has reached its end of stream meanwhile: the handler gives up
+              /\ UNCHANGED <<pubvars, regs, nextFree, wakeq, pc, hnd, mode, recv, res, wakes, start, oow, wasKicked, left, nkick>>
 
 (* ~subscriber -> leave_lk, publisher.h:194-200.  A parked coroutine may be destroyed together with
    its subscriber (the stale _awt stays in the unused slot); a thread blocked in next() may not. *)
 Leave(s) ==
     /\ Live(s) /\ pc[s] \notin ({"parked_b"} \cup WFetchPc) /\ CanAct
     /\ \A i \in 1..Len(wakeq) : wakeq[i] # s
+    /\ plan.st = "none" \/ s \notin {plan.a, plan.o}
     /\ regs' = [regs EXCEPT ![hnd[s] + 1] = [@ EXCEPT !.pos = nextFree, !.used = FALSE]]
     /\ nextFree' = hnd[s]
     /\ pc' = [pc EXCEPT ![s] = "unborn"]
@@ -225,7 +273,7 @@ Leave(s) ==
     /\ oow' = [oow EXCEPT ![s] = FALSE]
     /\ wasKicked' = [wasKicked EXCEPT ![s] = FALSE]
     /\ left' = TRUE
-    /\ UNCHANGED <<pos, q, closed, pubAlive, wakeq, njoin, nkick>>
+    /\ UNCHANGED <<pos, q, closed, pubAlive, wakeq, plan, njoin, nkick>>
 
 -----------------------------------------------------------------------------
 (* next(), one action per critical section *)
@@ -235,19 +283,19 @@ Ready(s) ==
          /\ regs' = [regs EXCEPT ![hnd[s] + 1] = r.l]
          /\ pc' = [pc EXCEPT ![s] = IF r.ok THEN "fetch" ELSE "nr"]
     /\ res' = [res EXCEPT ![s] = "none"]
-    /\ UNCHANGED <<pubvars, nextFree, wakeq, hnd, mode, recv, wakes, start, oow, wasKicked, left, njoin, nkick>>
+    /\ UNCHANGED <<pubvars, nextFree, wakeq, hnd, mode, recv, wakes, start, oow, wasKicked, left, plan, njoin, nkick>>
 
 Subscribe(s) ==
     /\ pc[s] = "nr" /\ CanAct
     /\ LET a == AdvSuspendLk(Slot(s), s) IN
          /\ regs' = [regs EXCEPT ![hnd[s] + 1] = a.l]
          /\ pc' = [pc EXCEPT ![s] = IF a.park THEN "parked" ELSE "fetch"]
-    /\ UNCHANGED <<pubvars, nextFree, wakeq, hnd, mode, recv, res, wakes, start, oow, wasKicked, left, njoin, nkick>>
+    /\ UNCHANGED <<pubvars, nextFree, wakeq, hnd, mode, recv, res, wakes, start, oow, wasKicked, left, plan, njoin, nkick>>
 
 Fetch(s) ==
     /\ pc[s] = "fetch" /\ CanAct
     /\ Deliver(s, GetValueLk(Slot(s), mode[s]))
-    /\ UNCHANGED <<pubvars, nextFree, wakeq, hnd, mode, start, oow, wasKicked, left, njoin, nkick>>
+    /\ UNCHANGED <<pubvars, nextFree, wakeq, hnd, mode, start, oow, wasKicked, left, plan, njoin, nkick>>
 
 (* next_ready(), publisher.h:490-494: await_ready(); if ready await_resume().  The caller cannot
    tell "not ready" from a consumed end of stream (documented).  The guard bounds repeated polls
@@ -261,7 +309,7 @@ Poll(s) ==
             ELSE /\ regs' = [regs EXCEPT ![hnd[s] + 1] = IF r.ok THEN g.l ELSE r.l]
                  /\ res' = [res EXCEPT ![s] = "notready"]
                  /\ UNCHANGED <<pc, recv, wakes>>
-    /\ UNCHANGED <<pubvars, nextFree, wakeq, hnd, mode, start, oow, wasKicked, left, njoin, nkick>>
+    /\ UNCHANGED <<pubvars, nextFree, wakeq, hnd, mode, start, oow, wasKicked, left, plan, njoin, nkick>>
 
 (* `while (co_await sub.next()) consume(sub.value());` run by one thread from a registration l and
    the values rcv received so far, until it parks or sees the end of the stream *)
@@ -304,7 +352,7 @@ NextWhole(s, style) ==
                  ELSE IF style = "block" /\ ~FixBlocking
                         THEN DeliverStale(s, a.l)
                         ELSE Deliver(s, GetValueLk(a.l, mode[s]))
-    /\ UNCHANGED <<pubvars, nextFree, wakeq, hnd, mode, start, oow, wasKicked, left, njoin, nkick>>
+    /\ UNCHANGED <<pubvars, nextFree, wakeq, hnd, mode, start, oow, wasKicked, left, plan, njoin, nkick>>
 
 (* awaiter::resume() of one collected awaiter, publisher.h:271 / 287 *)
 Wake(s) ==
@@ -317,6 +365,8 @@ Wake(s) ==
                                  [] pc[s] = "parked_l" -> "wfetch_l"
                                  [] pc[s] = "parked_b" -> "wfetch_b"]
     /\ wakes' = [wakes EXCEPT ![s] = @ + 1]
+    /\ plan.st # "due"
+    /\ plan' = IF plan.st = "armed" /\ plan.a = s THEN [plan EXCEPT !.st = "due"] ELSE plan
     /\ UNCHANGED <<pubvars, regs, nextFree, hnd, mode, recv, res, start, oow, wasKicked, left, njoin, nkick>>
 
 (* the resumed coroutine / unblocked thread goes on to await_resume() at once *)
@@ -328,7 +378,7 @@ WFetch(s) ==
                 THEN LET g == GetValueLk(Slot(s), mode[s]) IN
                      Drained(s, DrainFrom(s, g.l, Append(recv[s], g.v), mode[s], MaxPub + 3))
                 ELSE Deliver(s, GetValueLk(Slot(s), mode[s]))
-    /\ UNCHANGED <<pubvars, nextFree, wakeq, hnd, mode, start, oow, wasKicked, left, njoin, nkick>>
+    /\ UNCHANGED <<pubvars, nextFree, wakeq, hnd, mode, start, oow, wasKicked, left, plan, njoin, nkick>>
 
 -----------------------------------------------------------------------------
 (* push_lk, publisher.h:254-274, up to lk.unlock(): np = new _pos, q1 = deque after the push_front's *)
@@ -342,14 +392,17 @@ PushLk(np, q1) ==
     /\ pos' = np
     /\ q' = SubSeq(q1, 1, Min2(Min2(NeedLen(np), MaxLen), Len(q1)))
     /\ wakeq' = WakeList
-    /\ regs' = [i \in 1..Len(regs) |-> IF regs[i].used THEN [regs[i] EXCEPT !.awt = 0] ELSE regs[i]]
+    /\ regs' = [i \in 1..Len(regs) |->
+                  IF regs[i].used /\ regs[i].awt # 0
+                    THEN [regs[i] EXCEPT !.awt = 0, !.woken = FixCopyOfWoken]
+                    ELSE regs[i]]
 
 (* publish(x) / publish(begin,end), publisher.h:109-128: n values pos..pos+n-1, newest in front *)
 PushCS(n) ==
     /\ pubAlive /\ ~closed /\ PubFree
     /\ pos - 1 + n <= MaxPub
     /\ PushLk(pos + n, [i \in 1..n |-> pos + n - i] \o q)
-    /\ UNCHANGED <<nextFree, closed, pubAlive, pc, hnd, mode, recv, res, wakes, start, oow, wasKicked, left, njoin, nkick>>
+    /\ UNCHANGED <<nextFree, closed, pubAlive, pc, hnd, mode, recv, res, wakes, start, oow, wasKicked, left, plan, njoin, nkick>>
 
 (* publisher::close() / ~publisher(), publisher.h:130-135, 351-359 *)
 Close(how) ==
@@ -358,28 +411,31 @@ Close(how) ==
     /\ pubAlive' = (how = "close")
     /\ IF closed THEN UNCHANGED <<pos, q, wakeq, regs, closed>>
                  ELSE closed' = TRUE /\ PushLk(pos, q)
-    /\ UNCHANGED <<nextFree, pc, hnd, mode, recv, res, wakes, start, oow, wasKicked, left, njoin, nkick>>
+    /\ UNCHANGED <<nextFree, pc, hnd, mode, recv, res, wakes, start, oow, wasKicked, left, plan, njoin, nkick>>
 
 (* publisher::kick(&sub) / sub.kick_me(), publisher.h:136-139, 276-288 *)
 KickCS(s, via) ==
     /\ Live(s) /\ PubFree /\ nkick < MaxKick
     /\ via = "pub" => pubAlive
+    /\ plan.st = "none" \/ s # plan.o
     /\ wakeq' = IF Slot(s).awt # 0 THEN <<Slot(s).awt>> ELSE <<>>
     /\ regs' = [regs EXCEPT ![hnd[s] + 1] = [@ EXCEPT !.awt = 0, !.kicked = TRUE]]
     /\ nkick' = nkick + 1
     /\ wasKicked' = [wasKicked EXCEPT ![s] = TRUE]
-    /\ UNCHANGED <<pubvars, nextFree, pc, hnd, mode, recv, res, wakes, start, oow, left, njoin>>
+    /\ UNCHANGED <<pubvars, nextFree, pc, hnd, mode, recv, res, wakes, start, oow, left, plan, njoin>>
 
 (* publisher::kick(p) with the pointer of a subscriber that does not exist any more: documented to do
    nothing (publisher.h:363-368); the registration it once had may be unused or reused *)
 KickGone ==
     /\ left /\ pubAlive /\ PubFree /\ nkick < MaxKick
     /\ nkick' = nkick + 1
-    /\ UNCHANGED <<pubvars, regs, nextFree, wakeq, pc, hnd, mode, recv, res, wakes, start, oow, wasKicked, left, njoin>>
+    /\ UNCHANGED <<pubvars, regs, nextFree, wakeq, pc, hnd, mode, recv, res, wakes, start, oow, wasKicked, left, plan, njoin>>
 
 Next == \/ \E s \in Subs, m \in Modes : SubscribeRecent(s, m)
         \/ \E s \in Subs, p \in AtPos, m \in Modes : SubscribeAt(s, p, m)
         \/ \E c \in Subs, o \in Subs : SubscribeCopy(c, o)
+        \/ \E a \in Subs, c \in Subs, o \in Subs : PlanCopy(a, c, o)
+        \/ WakeCopy
         \/ \E s \in Subs : Leave(s)
         \/ \E s \in Subs : Ready(s)
         \/ \E s \in Subs : Subscribe(s)
@@ -399,6 +455,7 @@ Spec == Init /\ [][Next]_vars
 (* Properties (C16) *)
 
 RegOK(r) == /\ r.pos \in 0..(MaxPub + 3) /\ r.used \in BOOLEAN /\ r.kicked \in BOOLEAN /\ r.awt \in 0..NSubs
+            /\ r.woken \in BOOLEAN
 
 TypeOK ==
     /\ pos \in 1..(MaxPub + 1)
@@ -485,11 +542,14 @@ PosConsistent ==
 
 (* a copy starts at the value the original holds, with the original's mode; the original is untouched *)
 CopyIndependent ==
-    [][\A c \in Subs, o \in Subs : SubscribeCopy(c, o) =>
+    [][\A c \in Subs, o \in Subs : CopyCore(c, o) =>
           /\ mode'[c] = mode[o]
           /\ recv'[o] = recv[o] /\ pc'[o] = pc[o] /\ regs'[hnd[o] + 1] = regs[hnd[o] + 1]
           /\ \/ regs'[hnd'[c] + 1].pos = LastSeen(o)
              \/ Slot(o).pos >= pos /\ regs'[hnd'[c] + 1].pos = Slot(o).pos]_vars
+
+(* state constraint of the copy-of-woken configuration (Publisher_copywoken.cfg): nobody leaves *)
+NobodyLeft == ~left
 
 (* registration slots and free list *)
 RECURSIVE FreeWalk(_, _)
